@@ -106,8 +106,10 @@ def get_widths2(seq: Iterable[object]) -> Dict[int, Tuple[float, Point]]:
             r.append(v)
             if len(r) == 5:
                 (char1, char2, w, vx, vy) = r
-                for i in range(cast(int, char1), cast(int, char2) + 1):
-                    widths[i] = (w, (vx, vy))
+                if isinstance(char1, int) and isinstance(char2, int):
+                    # as in get_widths: a damaged range is cut to the 16-bit CIDs
+                    for i in range(max(char1, 0), min(char2, 0xFFFF) + 1):
+                        widths[i] = (w, (vx, vy))
                 r = []
     return widths
 
